@@ -139,14 +139,17 @@ def extract(src_root=None, label=None):
     final = os.path.join(CACHE, "facts", h)
     if os.path.exists(os.path.join(final, "ok")):
         return final
-    with Lock():
+    # VERIF_EXTRACT_SLOT=<k>: a private target dir and lock per matrix worker (tools/fast_matrix.py run several times in parallel);
+    # registered checks never set it
+    slot = os.environ.get("VERIF_EXTRACT_SLOT", "")
+    with Lock("extract" + slot):
         if os.path.exists(os.path.join(final, "ok")):
             return final
         tmp = final + ".tmp%d" % os.getpid()
         shutil.rmtree(tmp, ignore_errors=True)
         os.makedirs(tmp)
         t0 = time.time()
-        ok, log = run_driver(src_root, tmp, os.path.join(CACHE, "target"), MEMBER_PKGS)
+        ok, log = run_driver(src_root, tmp, os.path.join(CACHE, "target" + slot), MEMBER_PKGS)
         if not ok:
             shutil.rmtree(tmp, ignore_errors=True)
             raise Broken("cargo +nightly check of %s failed:\n%s" % (src_root, log[-3000:]))
